@@ -2,8 +2,8 @@ SPECIFICATION MSpec
 CONSTANTS
   WrapFix = TRUE
   Vals = {1, 2, 3, 4}
-  Epoch = 4
-  InitNumber = 0
+  Epoch = 1
+  InitNumber = 1
   InitSet = {1, 2, 3, 4}
   InitSigner = 2
   MaxNumber = 1000
